@@ -178,6 +178,8 @@ class _TS(_Val):
     def pyslice(self, X, lo, hi):
         if lo is None and hi is not None and z3.is_int_value(z3.simplify(hi.t)) and z3.simplify(hi.t).as_long() == 8:
             return _Fields(self.civil, 8)
+        if lo is None and hi is not None and z3.is_int_value(z3.simplify(hi.t)) and z3.simplify(hi.t).as_long() == 9:
+            return _Fields(self.civil, 9, 'as parsed')      # tm_isdst of the parsed date is -1: mktime decides about summer time
         raise Unsupported('slice of the parsed date other than [:8]')
 
     def getitem(self, X, key):
@@ -224,6 +226,9 @@ class ParseDate(Contract):
                 X.raise_(OverflowError, 'mktime')
             if isinstance(a, _Fields) and a.n == 9 and a.dst == 0:
                 return VInt(c.utc(a.civil) + c.tz)
+            if isinstance(a, _Fields) and a.n == 9:
+                # tm_isdst != 0: local summer time may be applied - an adjustment the contract knows nothing about
+                return VInt(c.utc(a.civil) + c.tz - X.fresh(z3.IntSort(), 'dst_adjustment'))
             raise Unsupported('mktime of something else than the first 8 fields + (0,)')
 
         def timegm(X, args, kwargs):
